@@ -1,5 +1,5 @@
 """C12 — stream decoders are insensitive to segmentation; truncation is an error or clean EOF."""
-from specs import codec
+from specs import codec, replies
 
 
 def run(ck):
@@ -23,4 +23,5 @@ def run(ck):
     codec.spec_socks_request_roundtrip(ck, 4, hostmax=24 if ck.tier == 'quick' else 300)
     codec.spec_socks_response_roundtrip(ck, 5)
     codec.spec_socks_response_roundtrip(ck, 4)
+    replies.spec_frame_channel_handover(ck)
     ck.post_filter = lambda o: o.label.startswith('C12/') or o.status in ('undecided', 'vacuous', 'inconclusive')
